@@ -163,12 +163,13 @@ func c10Cases(c runCfg) ([]*scratch.Pkg, []string, map[string]interface{}) {
 			pl   c10plan
 		}
 		var codeComps, dfltComps []comp
-		for k := 0; k < 3; k++ {
-			name := []string{"NotFound", "Created", "Unexpected"}[k]
+		for k := 0; k < 4; k++ {
+			// (Zeta: a status-coded component whose name sorts AFTER the default one's)
+			name := []string{"NotFound", "Created", "Unexpected", "Zeta"}[k]
 			r, pl := g.c10Response(sp, name, &head, pkg)
 			sp.CompResponses[name] = r
 			pl.gotype = name + "Response"
-			if k < 2 {
+			if k != 2 {
 				codeComps = append(codeComps, comp{name, pl})
 			} else {
 				dfltComps = append(dfltComps, comp{name, pl})
@@ -176,7 +177,7 @@ func c10Cases(c runCfg) ([]*scratch.Pkg, []string, map[string]interface{}) {
 		}
 		// an alias of a component response
 		sp.CompResponses["Gone"] = dialect.Response{Ref: "NotFound"}
-		codeComps = append(codeComps, comp{"Gone", codeComps[0].pl})
+		codeComps = append(codeComps[:2], append([]comp{{"Gone", codeComps[0].pl}}, codeComps[2:]...)...) // NotFound, Created, Gone, Zeta
 		type opinfo struct {
 			pi    *dialect.PathItem
 			o     *dialect.Op
@@ -300,7 +301,7 @@ func c10Cases(c runCfg) ([]*scratch.Pkg, []string, map[string]interface{}) {
 			}
 			yops = append(yops, fmt.Sprintf("@%d~%s", k, strings.Join(rs, "|")))
 		}
-		lines = append(lines, "Y "+pkg+" "+strings.Join(yops, "+")+" Created>-,Gone>NotFound,NotFound>-,Unexpected>-")
+		lines = append(lines, "Y "+pkg+" "+strings.Join(yops, "+")+" Created>-,Gone>NotFound,NotFound>-,Unexpected>-,Zeta>-")
 		for k, op := range ops {
 			exp := map[string]bool{}
 			for i, pl := range op.plans {
